@@ -38,6 +38,9 @@ type TimeWheel struct {
 
 	updateNotify chan time.Time
 	stopNotify   chan struct{}
+	// closed is closed once the timer goroutine has exited, it releases Add
+	// calls that are waiting to hand their update to it.
+	closed chan struct{}
 
 	dispatch func(TimeSlot)
 }
@@ -47,6 +50,7 @@ func NewTimeWheel(dispatch func(TimeSlot)) *TimeWheel {
 		slots:        list.New(),
 		stopNotify:   make(chan struct{}),
 		updateNotify: make(chan time.Time),
+		closed:       make(chan struct{}),
 		dispatch:     dispatch,
 	}
 	go tw.tick()
@@ -67,7 +71,13 @@ func (tw *TimeWheel) Add(target time.Time, value interface{}) {
 	tw.slots.PushBack(TimeSlot{Time: target, Value: value})
 	tw.slotsLock.Unlock()
 
-	tw.updateNotify <- target
+	// updateNotify is never closed: Close may run concurrently with us (after
+	// the stopped check above) and sending on a closed channel panics.
+	select {
+	case tw.updateNotify <- target:
+	case <-tw.closed:
+		// Stopped meanwhile, nobody is going to dispatch this entry.
+	}
 }
 
 func (tw *TimeWheel) Close() {
@@ -83,7 +93,7 @@ func (tw *TimeWheel) Close() {
 
 	tw.stopNotify = nil
 
-	close(tw.updateNotify)
+	close(tw.closed)
 }
 
 func (tw *TimeWheel) tick() {
